@@ -20,6 +20,7 @@ type groupsRun struct {
 	f     *flamego.Flame
 	trace []int
 	wrap  bool // a HandlerWrapper is installed and the handlers have no fast invoker
+	combos map[int]*flamego.ComboRoute
 }
 
 func (gr *groupsRun) handlers(hs *Sx) []flamego.Handler {
@@ -38,6 +39,31 @@ func (gr *groupsRun) handlers(hs *Sx) []flamego.Handler {
 		}
 	}
 	return out
+}
+
+func comboMethod(c *flamego.ComboRoute, m string, hs []flamego.Handler) {
+	switch m {
+	case "GET":
+		c.Get(hs...)
+	case "POST":
+		c.Post(hs...)
+	case "PUT":
+		c.Put(hs...)
+	case "DELETE":
+		c.Delete(hs...)
+	case "PATCH":
+		c.Patch(hs...)
+	case "OPTIONS":
+		c.Options(hs...)
+	case "HEAD":
+		c.Head(hs...)
+	case "CONNECT":
+		c.Connect(hs...)
+	case "TRACE":
+		c.Trace(hs...)
+	default:
+		panic(badInput("combo method " + m))
+	}
 }
 
 func (gr *groupsRun) wrapper(h flamego.Handler) flamego.Handler {
@@ -86,30 +112,19 @@ func (gr *groupsRun) exec(stmts []*Sx) {
 					f.AutoHead(u.Args()[0].Atom == "1")
 					continue
 				}
-				hs := gr.handlers(u.Args()[1])
-				switch u.Args()[0].Atom {
-				case "GET":
-					c.Get(hs...)
-				case "POST":
-					c.Post(hs...)
-				case "PUT":
-					c.Put(hs...)
-				case "DELETE":
-					c.Delete(hs...)
-				case "PATCH":
-					c.Patch(hs...)
-				case "OPTIONS":
-					c.Options(hs...)
-				case "HEAD":
-					c.Head(hs...)
-				case "CONNECT":
-					c.Connect(hs...)
-				case "TRACE":
-					c.Trace(hs...)
-				default:
-					panic(badInput("combo method " + u.String()))
-				}
+				comboMethod(c, u.Args()[0].Atom, gr.handlers(u.Args()[1]))
 			}
+		case "cnew": // a ComboRoute kept in a variable ...
+			if gr.combos == nil {
+				gr.combos = map[int]*flamego.ComboRoute{}
+			}
+			gr.combos[a[0].Int()] = f.Combo(a[1].Bytes(), gr.handlers(a[2])...)
+		case "cuse": // ... and given a method later, wherever that is
+			c := gr.combos[a[0].Int()]
+			if c == nil {
+				panic(badInput("cuse before cnew " + s.String()))
+			}
+			comboMethod(c, a[1].Atom, gr.handlers(a[2]))
 		case "autohead":
 			f.AutoHead(a[0].Atom == "1")
 		case "wrapper": // installed or taken off between two declarations
@@ -188,6 +203,13 @@ type groupsGen struct {
 	probes   []*Sx
 	rootUsed map[string]bool
 	gated    bool // some statement carries (hdr 1)
+	held     []heldCombo // ComboRoute values made so far
+}
+
+type heldCombo struct {
+	id   int
+	path string
+	used map[string]bool
 }
 
 // hdr decides whether a statement is followed by .Headers(...) on its result
@@ -313,6 +335,19 @@ func (g *groupsGen) stmts(depth int, prefix string, n int) []*Sx {
 			}
 			out = append(out, T("combo", append([]*Sx{X(path), g.hs(2)}, uses...)...))
 			g.probe([]string{"GET", "POST", "PUT", "DELETE", "HEAD", "PATCH", "OPTIONS"}, prefix, full)
+		case r == 18 && rng.Intn(2) == 0:
+			// a ComboRoute kept in a variable: made here, given methods here or in whatever scope comes later
+			g.held = append(g.held, heldCombo{id: g.nextR, path: path, used: map[string]bool{}})
+			out = append(out, T("cnew", I(g.nextR), X(path), g.hs(2)))
+		case r == 19 && len(g.held) > 0 && rng.Intn(2) == 0:
+			h := g.held[rng.Intn(len(g.held))]
+			m := ms[rng.Intn(len(ms))]
+			if h.used[m] && rng.Intn(4) != 0 { // now and then the same method twice: refused
+				break
+			}
+			h.used[m] = true
+			out = append(out, T("cuse", I(h.id), A(m), g.hs(2)))
+			g.probe([]string{m, "GET", "HEAD"}, prefix, prefix+h.path)
 		default:
 			if rng.Intn(3) == 0 {
 				out = append(out, T("wrapper", B(rng.Intn(2) == 0)))
@@ -330,6 +365,16 @@ func genC11(rng *rand.Rand, n int, tier string, emit func(*Sx)) {
 		prog := g.stmts(0, "", 2+rng.Intn(5))
 		if rng.Intn(25) == 0 { // Combo refuses the same method twice
 			prog = append(prog, T("combo", X("/dup"), T("hs"), T("use", A("GET"), T("hs", I(901))), T("use", A("POST"), T("hs", I(902))), T("use", A("GET"), T("hs", I(903)))))
+		}
+		if rng.Intn(6) == 0 {
+			// a ComboRoute made inside a group, given further methods after the group has closed and inside a sibling group
+			prog = append(prog,
+				T("group", X("/hg"), T("hs", I(951)), T("body", T("cnew", I(9000), X("/hc"), T("hs", I(952))), T("cuse", I(9000), A("GET"), T("hs", I(953))))),
+				T("cuse", I(9000), A("POST"), T("hs", I(954))),
+				T("group", X("/hs"), T("hs", I(955)), T("body", T("cuse", I(9000), A("PUT"), T("hs", I(956))))))
+			for _, pr := range [][2]string{{"GET", "/hg/hc"}, {"POST", "/hc"}, {"POST", "/hg/hc"}, {"PUT", "/hs/hc"}, {"PUT", "/hg/hc"}, {"PUT", "/hc"}, {"HEAD", "/hg/hc"}} {
+				g.probes = append(g.probes, T("probe", X(pr[0]), X(pr[1])))
+			}
 		}
 		if g.gated { // every probe also with the gating header
 			for _, pr := range append([]*Sx(nil), g.probes...) {
